@@ -75,14 +75,46 @@ func mutationsFor(fd protoreflect.FieldDescriptor) []string {
 		for _, n := range byteLens {
 			ms = append(ms, fmt.Sprintf("len-%d", n))
 		}
+		// a bytes field may carry a big-endian integer (difficulties, targets, numbers, amounts, entropies):
+		// the values {zero, one, max}; "absent" is clear, "empty bytes" is len-0
+		ms = append(ms, bigKinds[:3]...)
+		if allKinds {
+			ms = append(ms, bigKinds[3:]...)
+		}
 	case fd.Kind() == protoreflect.StringKind:
 		ms = append(ms, "str-empty", "str-long")
 	case fd.Kind() == protoreflect.BoolKind:
 		ms = append(ms, "flip")
 	default: // numeric / enum
-		ms = append(ms, "num-0", "num-1", "num-2", "num-3", "num-max32", "num-max64")
+		ms = append(ms, "num-0", "num-1", "num-2", "num-3", "num-max32", "num-max64", "num-max31", "num-max63")
 	}
 	return ms
+}
+
+// integer values for bytes fields: present-but-zero (one 0x00 byte: what PowShareDiffAndCount.ProtoEncode
+// writes for 0), one, 2^64-1, 2^64, 2^256-1, 2^256
+// (the first three in every tier, the others in the thorough tier and in the random part)
+var bigKinds = []string{"big-zero", "big-one", "big-max256", "big-max64", "big-2e64", "big-2e256"}
+
+// allKinds: mutationsFor lists every kind (thorough tier; random part of the quick tier)
+var allKinds = false
+
+func bigValue(kind string) ([]byte, bool) {
+	switch kind {
+	case "big-zero":
+		return []byte{0}, true
+	case "big-one":
+		return []byte{1}, true
+	case "big-max64":
+		return fill(8, 0xff), true
+	case "big-2e64":
+		return append([]byte{1}, make([]byte, 8)...), true
+	case "big-max256":
+		return fill(32, 0xff), true
+	case "big-2e256":
+		return append([]byte{1}, make([]byte, 32)...), true
+	}
+	return nil, false
 }
 
 func numValue(fd protoreflect.FieldDescriptor, v uint64) protoreflect.Value {
@@ -161,6 +193,16 @@ func applyMutation(m protoreflect.Message, fd protoreflect.FieldDescriptor, kind
 		}
 	case scan(kind, "len-%d", &n):
 		m.Set(fd, protoreflect.ValueOfBytes(fill(n, 0xAB)))
+	case strings.HasPrefix(kind, "big-"):
+		v, ok := bigValue(kind)
+		if !ok {
+			return false
+		}
+		m.Set(fd, protoreflect.ValueOfBytes(v))
+	case kind == "num-max31":
+		m.Set(fd, numValue(fd, 0x7FFFFFFF))
+	case kind == "num-max63":
+		m.Set(fd, numValue(fd, 0x7FFFFFFFFFFFFFFF))
 	case kind == "str-empty":
 		m.Set(fd, protoreflect.ValueOfString(""))
 	case kind == "str-long":
@@ -186,10 +228,16 @@ func scan(s, format string, n *int) bool {
 
 // mutateAt clones root, applies mutation kind at the idx-th site and marshals. ok=false if not applicable.
 func mutateAt(root proto.Message, idx int, kind string) (out []byte, path string, ok bool) {
+	out, _, path, ok = mutateAtMsg(root, idx, kind)
+	return
+}
+
+// mutateAtMsg is mutateAt that also hands back the mutated message (for a re-commit, see reseal.go).
+func mutateAtMsg(root proto.Message, idx int, kind string) (out []byte, msg proto.Message, path string, ok bool) {
 	c := proto.Clone(root)
 	ss := sites(c)
 	if idx >= len(ss) {
-		return nil, "", false
+		return nil, nil, "", false
 	}
 	s := ss[idx]
 	defer func() {
@@ -198,13 +246,13 @@ func mutateAt(root proto.Message, idx int, kind string) (out []byte, path string
 		}
 	}()
 	if !applyMutation(s.msg, s.fd, kind) {
-		return nil, s.path, false
+		return nil, nil, s.path, false
 	}
 	b, err := proto.MarshalOptions{AllowPartial: true}.Marshal(c)
 	if err != nil || len(b) > 1<<20 {
-		return nil, s.path, false
+		return nil, nil, s.path, false
 	}
-	return b, s.path, true
+	return b, c, s.path, true
 }
 
 // ---------- byte-level mutations ----------
